@@ -24,6 +24,7 @@ from fractions import Fraction as Fr
 
 SYMMETRIC = {"A"}
 POSITIVE_VARS = {"y"}
+INDICATOR_VARS = {"mlo", "mhi"}        # 0/1-valued tensors (clip masks): m^2 = m
 SIMPLEX = {"on": False, "var": "y"}     # rewrite sum_k y[n,k] -> 1 when on
 _counter = itertools.count()
 
@@ -65,6 +66,10 @@ def mono_norm(items):
     for a, e in d.items():
         if e == 0:
             continue
+        if a[0] == "var" and a[1] in INDICATOR_VARS:
+            if e < 0:
+                raise Unsupported("negative power of an indicator")
+            e = Fr(1)
         if a[0] in ("step", "stepge", "ind"):
             if e < 0:
                 raise Unsupported("negative power of an indicator")
@@ -478,7 +483,7 @@ def mk_pow(p, r):
                 if a[0] == "const":
                     res = res * _rat_pow(a[1], e * r) if (e * r).denominator == 1 else res * Poly.atom(a, e * r)
                 else:
-                    res = res * Poly({((a, e * r),): Fr(1)}) if a[0] not in ("delta", "offdiag", "lt", "step", "stepge", "ind") else (res * Poly.atom(a) if r > 0 else _unsup("negative power of an indicator"))
+                    res = res * Poly({((a, e * r),): Fr(1)}) if a[0] not in ("delta", "offdiag", "lt", "step", "stepge", "ind") else res * Poly.atom(a)      # an indicator under any power is itself on its support (the convention for guarded singular factors)
             else:
                 rest.append((a, e))
         if integer:
@@ -676,7 +681,15 @@ def mk_abs(p):
     if poly_positive(p):
         return p
     coef, pulled, q = _sign_normal(p)
-    return Poly({pulled: abs(coef)}) * Poly.atom(("abs", q.frozen()))
+    res = Poly({pulled: abs(coef)}) * Poly.atom(("abs", q.frozen()))
+    # a quantity that vanishes identically on a diagonal (pairwise distance): supported off the diagonal only
+    idx = sorted(p.indices())
+    for x in range(len(idx)):
+        for y in range(x + 1, len(idx)):
+            i, j = idx[x], idx[y]
+            if dim_of(i) == dim_of(j) and subst(p, {j: i}).is_zero():
+                return mk_offdiag(i, j) * res
+    return res
 
 
 def mk_sign(p):
@@ -694,7 +707,14 @@ def mk_sign(p):
             res = res * Poly.atom(("sign", Poly.atom(a).frozen()))
         return res
     coef, pulled, q = _sign_normal(p)
-    return Poly.atom(("sign", q.frozen())) * (1 if coef > 0 else -1)
+    res = Poly.atom(("sign", q.frozen())) * (1 if coef > 0 else -1)
+    idx = sorted(p.indices())
+    for x in range(len(idx)):
+        for y in range(x + 1, len(idx)):
+            i, j = idx[x], idx[y]
+            if dim_of(i) == dim_of(j) and subst(p, {j: i}).is_zero():
+                return mk_offdiag(i, j) * res
+    return res
 
 
 # ------------------------------------------------------------------------------------------------ sums
